@@ -9,8 +9,10 @@
  *   dump                                                                     every query call + g->valloc[]
  *   reuse                                                                    esl_getopts_Reuse
  *   help grp=N indent=N width=N                                              esl_opt_DisplayHelp into a memory stream (opt rows may carry help=H|~ grp=N)
+ *   dumptext                                                                 esl_getopts_Dump into a memory stream
  *   spoofcmd                                                                 esl_opt_SpoofCmdline
  *   defapp nargs=N w=H,H,...                                                 esl_getopts_CreateDefaultApp in a child process: returned / exit0 help / exit1 parse|nargs
+ *   realrange r=H v=H                                                        fresh table {--x REAL range r}: ProcessCmdline(prog --x v) status, bits of GetReal
  *   atof s=H                                                                 esl_str_IsReal(s), bit pattern of atof(s)
  * H = lowercase hex, "-" = empty string, "~" = NULL.
  */
@@ -152,6 +154,19 @@ static void h_op(void)
     h_out("ok");
     return;
   }
+  if (!strcmp(op, "realrange")) {       /* one real-valued option with range r, argument v given on a command line: accepted? */
+    ESL_OPTIONS one[2]; ESL_GETOPTS *go; char *av[3]; int st;
+    memset(one, 0, sizeof(one));
+    one[0].name = "--x"; one[0].type = eslARG_REAL; one[0].range = field("r"); one[0].help = "h";
+    av[0] = "prog"; av[1] = "--x"; av[2] = field("v"); if (!av[2]) av[2] = "";
+    go = esl_getopts_Create(one);
+    if (!go) { h_out("einval"); return; }
+    st = esl_opt_ProcessCmdline(go, 3, av);
+    if (st == eslOK) h_out("ok bits=%s", h_dbits(esl_opt_GetReal(go, "--x")));
+    else h_out("%s %s", h_status(st), go->errbuf[0] ? "msg" : "nomsg");
+    esl_getopts_Destroy(go);
+    return;
+  }
   if (!strcmp(op, "atof")) {            /* the two libc conversions behind real-valued options, on one string (no object needed) */
     char *v = field("s");
     if (!v) v = "";
@@ -235,6 +250,13 @@ static void h_op(void)
     st = esl_opt_DisplayHelp(fp, G, (int) h_argi("grp", 0), (int) h_argi("indent", 0), (int) h_argi("width", 80));
     fclose(fp);
     h_out("%s %s", h_status(st), msz ? h_hex(mem, (int64_t) msz) : "-");
+    free(mem);
+  } else if (!strcmp(op, "dumptext")) {
+    char *mem = NULL; size_t msz = 0; FILE *fp = open_memstream(&mem, &msz);
+    if (!fp) { h_out("io-error"); return; }
+    esl_getopts_Dump(fp, G);
+    fclose(fp);
+    h_out("ok %s", msz ? h_hex(mem, (int64_t) msz) : "-");
     free(mem);
   } else if (!strcmp(op, "spoofcmd")) {
     char *cl = NULL; int st = esl_opt_SpoofCmdline(G, &cl);
